@@ -94,6 +94,17 @@ class BaseCtx:
         else: self.ensure(label, isinstance(o[1], excs), got=type(o[1]).__name__)
         return o
     def eq(self, a, b): return val.eq(a, b)
+    def replace(self, f, handler):
+        """use a callee's contract instead of its body (symbolic mode only; the contract is proved by its own obligation)"""
+        pass
+    def replace_wordfn(self, f, specfn):
+        """callee f maps Bits words to a Bits word and is specified by the word function specfn(w, *values)"""
+        def h(I, args, kw):
+            from crysp.bits import Bits
+            w = args[0].size
+            r = Bits(0, w); r.ival = specfn(w, *[a.ival for a in args])
+            return (r,)
+        self.replace(f, h)
     # operators are applied through the context so that, in symbolic mode, the dispatch to the
     # repository's dunder methods is done by the evaluator (never natively on symbolic values)
     def binop(self, op, a, b): return self.call(_OPFUN[op], a, b)
